@@ -39,9 +39,14 @@ FieldArg(desc, f, forUpdate) ==
 FieldArgs(desc, fs, forUpdate) == [i \in 1..Len(fs) |-> FieldArg(desc, fs[i], forUpdate)]
 \* every struct (and struct-like variant) with fields gets an ArgGroup named after it holding its own fields, multiple(true)
 StructGroup(desc, id, fs) == IF fs = <<>> THEN <<>> ELSE <<[desc.groupt EXCEPT !.id = id, !.args = [i \in 1..Len(fs) |-> fs[i].name], !.multiple = TRUE]>>
+NestedCmd(desc, nv, forUpdate) ==
+  [desc.cmdt EXCEPT !.name = nv.name, !.args = FieldArgs(desc, nv.fields, forUpdate), !.groups = StructGroup(desc, nv.rust, nv.fields)]
+\* a `#[command(subcommand)] Variant(Inner)` variant: the inner enum's subcommands, one of them required
 VariantCmd(desc, v, forUpdate) ==
   [desc.cmdt EXCEPT !.name = v.name, !.aliases = v.aliases, !.args = FieldArgs(desc, v.fields, forUpdate),
-                    !.groups = StructGroup(desc, v.rust, v.fields)]
+                    !.groups = StructGroup(desc, v.rust, v.fields),
+                    !.subs = [i \in 1..Len(v.nested) |-> NestedCmd(desc, v.nested[i], forUpdate)],
+                    !.s = [desc.cmdt.s EXCEPT !.subcommand_required = v.nested # <<>> /\ ~forUpdate, !.arg_required_else_help = v.nested # <<>> /\ ~forUpdate]]
 DeriveCmd(desc, forUpdate) ==
   LET required == desc.subs.present /\ ~desc.subs.optional /\ ~forUpdate IN
   [desc.cmdt EXCEPT !.name = <<112, 114, 111, 103>>,
@@ -79,10 +84,15 @@ ExtractFields(desc, E, fs) == [i \in 1..Len(fs) |-> ExtractField(desc, E, fs[i],
 Extract(desc, obs) ==     \* obs.outcome = "Ok"
   LET top == obs.chain[1]
       own == ExtractFields(desc, top, desc.fields) \o ExtractFields(desc, top, desc.flatten.fields)
-  IN IF ~desc.subs.present THEN [top |-> own, cmd |-> <<>>, sub |-> <<>>]
-     ELSE IF ~top.has_sub THEN [top |-> own, cmd |-> <<>>, sub |-> <<>>]
-     ELSE LET vi == CHOOSE i \in 1..Len(desc.subs.variants) : desc.subs.variants[i].name = top.sub IN
-          [top |-> own, cmd |-> top.sub, sub |-> ExtractFields(desc, obs.chain[2], desc.subs.variants[vi].fields)]
+      none == [top |-> own, cmd |-> <<>>, sub |-> <<>>, cmd2 |-> <<>>, sub2 |-> <<>>]
+  IN IF ~desc.subs.present \/ ~top.has_sub THEN none
+     ELSE LET vi == CHOOSE i \in 1..Len(desc.subs.variants) : desc.subs.variants[i].name = top.sub
+              v == desc.subs.variants[vi]
+              l2 == obs.chain[2]
+          IN IF v.nested = <<>> \/ ~l2.has_sub
+             THEN [none EXCEPT !.cmd = top.sub, !.sub = ExtractFields(desc, l2, v.fields)]
+             ELSE LET ni == CHOOSE i \in 1..Len(v.nested) : v.nested[i].name = l2.sub IN
+                  [none EXCEPT !.cmd = top.sub, !.cmd2 = l2.sub, !.sub2 = ExtractFields(desc, obs.chain[3], v.nested[ni].fields)]
 
 \* ---- PrintValue: a value back to a canonical argv ---------------------------------------
 DDASH == <<45, 45>>
@@ -105,8 +115,12 @@ PrintValue(desc, value) ==
   LET fs == desc.fields \o desc.flatten.fields IN
   PrintFields(fs, value.top) \o PrintPositionals(fs, value.top)
   \o (IF value.cmd = <<>> THEN <<>>
-      ELSE LET vi == CHOOSE i \in 1..Len(desc.subs.variants) : desc.subs.variants[i].name = value.cmd IN
-           <<value.cmd>> \o PrintFields(desc.subs.variants[vi].fields, value.sub) \o PrintPositionals(desc.subs.variants[vi].fields, value.sub))
+      ELSE LET vi == CHOOSE i \in 1..Len(desc.subs.variants) : desc.subs.variants[i].name = value.cmd
+               v == desc.subs.variants[vi] IN
+           <<value.cmd>> \o PrintFields(v.fields, value.sub) \o PrintPositionals(v.fields, value.sub)
+           \o (IF value.cmd2 = <<>> THEN <<>>
+               ELSE LET ni == CHOOSE i \in 1..Len(v.nested) : v.nested[i].name = value.cmd2 IN
+                    <<value.cmd2>> \o PrintFields(v.nested[ni].fields, value.sub2) \o PrintPositionals(v.nested[ni].fields, value.sub2)))
 \* an optional-value option directly before a positional would swallow it; `--` is not needed otherwise
 Printable(desc, value) ==
   /\ \A i \in 1..Len(value.top) : \A k \in 1..Len(value.top[i].v) : value.top[i].v[k] = <<>> \/ value.top[i].v[k][1] # 45
